@@ -189,14 +189,14 @@ def fromDegrees (d : Int) : Option Int :=
 def snap (n : Int) : Int :=
   if n ≤ 44 then 0 else if n ≤ 134 then 90 else if n ≤ 224 then 180 else if n ≤ 315 then 270 else 0
 
-/-- `create_rotated_page`: i32 addition (panics on overflow in a debug build), `rem_euclid(360)`,
-`set_rotation` -/
+/-- `create_rotated_page` BEFORE the repair of C16-F3: i32 addition (panics on overflow in a debug
+build), `rem_euclid(360)`, `set_rotation`; kept for the regression witness -/
 def rotated (r angle : Int) : Outcome Int :=
   let s := r + angle
   if s > I32_MAX ∨ s < I32_MIN then .panic else .ok (snap (s % 360))
 
 /-- the overflow-free composition `(rotation.rem_euclid(360) + angle).rem_euclid(360)` followed by
-`set_rotation` — the form the repair of C16-F3 gives `create_rotated_page` (pre-staged; see
+`set_rotation` — `create_rotated_page` since the repair of C16-F3 (see
 `C16_rotatedRepaired_agrees`: identical to `rotated` wherever that does not panic) -/
 def rotatedRepaired (r angle : Int) : Outcome Int := .ok (snap ((r % 360 + angle) % 360))
 
@@ -314,7 +314,7 @@ def rotatePages (ps : List Src) (idx : List Nat) (angle : Int) : Nat → List Sr
   | i, p :: rest =>
     let here : Outcome Out :=
       if idx.contains i then
-        match rotated p.rotation angle with
+        match rotatedRepaired p.rotation angle with
         | .ok r => .ok { copyPage p with rotation := r }
         | .err e => .err e
         | .panic => .panic
